@@ -486,8 +486,11 @@ func c04Gen(r *rand.Rand) *c04Case {
 		c.CfgName, c.Effective, c.Exact = "quoted-and-alternation", alt, true
 		c.CfgYAML = "patterns:\n  anti_evasion:\n    unix: \"  (?:x|y)  \"\n    windows: 'q? '\n  anti_evasion_suffix:\n    unix: \"_su_ \"\n    windows: |\n      _sw_  \t\n  anti_evasion_no_space_suffix:\n    unix: >\n      _nu_   \n    windows: \" _nw_\"\n"
 	}
-	if v := r.Intn(8); v < 4 {
+	if v := r.Intn(9); v < 5 {
 		// comments and keys the tool does not know change nothing
+		if v == 4 {
+			v = 5
+		}
 		if y := yamlExtras(c.CfgYAML, v); y != c.CfgYAML {
 			c.CfgYAML = y
 			c.CfgName += "+extra-keys"
